@@ -319,7 +319,7 @@ func ruleC09R1(w *World, r *Report) {
 
 func ruleC09R2(w *World, r *Report) {
 	const rule = "C09/R2"
-	r.rule(rule, "every allocation of an ast.Bad* node in package memefish is dominated by a call to a function all of whose normal returns have appended to Parser.errors", 10)
+	r.rule(rule, "every allocation of an ast.Bad* node in package memefish is dominated by a call to a function all of whose normal returns have appended to Parser.errors", 5)
 	rec := w.Recording()
 	if len(rec) == 0 {
 		r.errorf("no error-recording function found (expected handleError and the handleParse*Error family)")
@@ -478,7 +478,7 @@ func (w *World) restoreSites() []restoreSite {
 
 func ruleC09R4(w *World, r *Report) {
 	const rule = "C09/R4"
-	r.rule(rule, "speculative parsing: on every path from a Lexer.Clone() to the store restoring that clone into Parser.Lexer (in the function or its deferred closure) no callee can reach a store to Parser.errors and no recover() lies in between", 7)
+	r.rule(rule, "speculative parsing: on every path from a Lexer.Clone() to the store restoring that clone into Parser.Lexer (in the function or its deferred closure) no callee can reach a store to Parser.errors and no recover() lies in between", 4)
 	may := w.MayRecord()
 	sites := w.restoreSites()
 	for _, s := range sites {
@@ -601,7 +601,7 @@ func instrReach(from ssa.Instruction, forward bool, stop func(ssa.Instruction) b
 // half-built token and reports something else, somewhere else.
 func ruleC09R6(w *World, r *Report) {
 	const rule = "C09/R6"
-	r.rule(rule, "no call in the core packages drops the error result of a function of the module: the result is bound and used (compared, returned, stored)", 5)
+	r.rule(rule, "no call in the core packages drops the error result of a function of the module: the result is bound and used (compared, returned, stored)", 3)
 	errT := types.Universe.Lookup("error").Type()
 	n := 0
 	for _, fn := range w.ModFns {
